@@ -7,6 +7,7 @@ CONSTANTS
   MaxDisc = 1
   MaxSubs = 1
   Sequential = FALSE
+  Abandons = FALSE
   Timeouts = TRUE
   Limits <- NoLimits
   Affs <- NoAffs
